@@ -438,9 +438,11 @@ theorem setCoord_wf {a a' : Arr} {coord : List (List Tok)} (hw : WF a) (h : setC
     simp only [hs, Bool.not_false, Bool.true_and, bne_iff_ne, ne_eq, Decidable.not_not] at h1
     exact h1
   · intro b hb
-    have := hw.box b hb
-    simp only [hb, Option.isSome_some, Bool.true_and, bne_iff_ne, ne_eq, Decidable.not_not] at h3
-    simp only; omega
+    have hb' : a.box = some b := hb
+    have := hw.box b hb'
+    simp [hb'] at h3
+    show b.length = coord.length
+    omega
 
 theorem boxDepth_ok {box : Option (List Tok)} {d : Nat} (h : ¬ boxDepthBad box d = true) :
     ∀ b, box = some b → b.length = d := by
@@ -477,7 +479,7 @@ theorem fromTemplate_wf {a a' : Arr} {coord : List (List Tok)} {box : Option (Li
   split at h; · cases h
   rename_i h1 h2
   cases h
-  exact ⟨hw.cols, all_len (by simpa using h1), fun hs => by cases hs, boxDepth_ok h2, hw.bonds⟩
+  exact ⟨hw.cols, all_len (by simpa using h1), (fun hs => nomatch hs), boxDepth_ok h2, hw.bonds⟩
 
 theorem mkNew_wf {stack : Bool} {n : Nat} {cols coord box bonds} {a : Arr}
     (h : mkNew stack n cols coord box bonds = .ok a) : WF a := by
@@ -490,7 +492,8 @@ theorem mkNew_wf {stack : Bool} {n : Nat} {cols coord box bonds} {a : Arr}
   cases h
   simp only [Bool.or_eq_true, Bool.not_eq_true', not_or, Bool.not_eq_false] at h1
   refine ⟨?_, all_len (by simpa using h1.2), ?_, boxDepth_ok h3, ?_⟩
-  · exact foldl_insert_all (fun c => c.length = n) cols _ (mandCols_len n) (all_len (by simpa using h1.1))
+  · refine foldl_insert_all (fun (c : List Tok) => c.length = n) cols _ (mandCols_len n) ?_
+    intro p hp; have := List.all_eq_true.1 h1.1 p hp; simpa using this
   · intro hs
     simp only at hs ⊢
     simp only [hs, Bool.not_false, Bool.true_and, bne_iff_ne, ne_eq, Decidable.not_not] at h2
@@ -512,7 +515,348 @@ theorem arrayOf_wf {xs : List AtomV} {a : Arr} (h : arrayOf xs = .ok a) : WF a :
     · cases h
     · cases h
       refine ⟨?_, by simp, by simp, by simp, by simp⟩
-      refine foldl_insert_all (fun c => c.length = _) _ _ (mandCols_len _) ?_
+      refine foldl_insert_all (fun (c : List Tok) => c.length = _) _ _ (mandCols_len _) ?_
       intro p hp; simp only [List.mem_map] at hp; obtain ⟨q, _, rfl⟩ := hp; simp
+
+/-! ### several containers -/
+
+theorem lookup_mem {α} {k : String} {v : α} : ∀ {d : List (String × α)}, lookup k d = some v → (k, v) ∈ d
+  | [], h => by cases h
+  | (k', v') :: r, h => by
+    unfold lookup at h
+    split at h
+    · rename_i hk; cases h; simp [hk]
+    · simp [lookup_mem h]
+
+theorem concatCheck_ok {st : Bool} {d : Nat} : ∀ {xs : List Arr}, concatCheck st d xs = .ok () →
+    ∀ a ∈ xs, a.stack = st ∧ a.coord.length = d
+  | [], _, a, ha => by cases ha
+  | x :: r, h, a, ha => by
+    unfold concatCheck at h
+    split at h; · cases h
+    split at h; · cases h
+    rename_i h1 h2
+    simp only [List.mem_cons] at ha
+    rcases ha with rfl | ha
+    · simp at h1 h2; exact ⟨h1, h2⟩
+    · exact concatCheck_ok h a ha
+
+theorem joinCols_length (xs : List (List Tok)) : (joinCols xs).length = (xs.map List.length).foldr (· + ·) 0 := by
+  induction xs with
+  | nil => rfl
+  | cons x r ih => simp [joinCols] at ih ⊢; omega
+
+theorem concatCol_len {k : String} : ∀ {xs : List Arr} {c : List Tok}, (∀ a ∈ xs, WF a) →
+    concatCol k xs = some c → c.length = totalLen xs
+  | [], c, _, h => by cases h; rfl
+  | a :: r, c, hw, h => by
+    unfold concatCol at h
+    split at h
+    · rename_i c0 cs h0 hs
+      cases h
+      have : c0.length = a.n := (hw a (by simp)).cols _ (lookup_mem h0)
+      have ih := concatCol_len (fun x hx => hw x (by simp [hx])) hs
+      simp [totalLen] at ih ⊢; omega
+    · cases h
+
+theorem concatBlock_len (m : Nat) : ∀ (xs : List Arr), (∀ a ∈ xs, WF a ∧ m < a.coord.length) →
+    (concatBlock m xs).length = totalLen xs
+  | [], _ => rfl
+  | a :: r, hw => by
+    have ih := concatBlock_len m r (fun x hx => hw x (by simp [hx]))
+    have ⟨hwa, hm⟩ := hw a (by simp)
+    have : (a.coord.getD m []).length = a.n := by
+      rw [List.getD_eq_getElem?_getD, List.getElem?_eq_getElem hm]
+      exact hwa.blocks _ (List.getElem_mem _)
+    simp only [concatBlock, joinCols, totalLen, List.map_cons, List.foldr_cons, List.length_append] at ih ⊢
+    omega
+
+theorem firstBox_mem : ∀ {xs : List Arr} {b : List Tok}, firstBox xs = some b → ∃ a ∈ xs, a.box = some b
+  | [], _, h => by cases h
+  | a :: r, b, h => by
+    unfold firstBox at h
+    split at h
+    · rename_i b0 hb; cases h; exact ⟨a, by simp, hb⟩
+    · obtain ⟨x, hx, hb⟩ := firstBox_mem h; exact ⟨x, by simp [hx], hb⟩
+
+theorem concatenate_wf {xs : List Arr} {a' : Arr} (hw : ∀ a ∈ xs, WF a) (h : concatenate xs = .ok a') : WF a' := by
+  unfold concatenate at h
+  split at h
+  · cases h
+  · rename_i f t
+    split at h
+    · cases h
+    · rename_i hchk
+      cases h
+      have hall := concatCheck_ok hchk
+      refine ⟨?_, ?_, ?_, ?_, ?_⟩
+      · refine foldl_insert_all (fun (c : List Tok) => c.length = totalLen (f :: t)) _ _ (mandCols_len _) ?_
+        intro p hp
+        simp only [List.mem_filterMap, Option.map_eq_some_iff] at hp
+        obtain ⟨q, _, c, hc, rfl⟩ := hp
+        exact concatCol_len hw hc
+      · intro c hc
+        simp only [List.mem_map, List.mem_range] at hc
+        obtain ⟨m, hm, rfl⟩ := hc
+        exact concatBlock_len m _ (fun a ha => ⟨hw a ha, by rw [(hall a ha).2]; exact hm⟩)
+      · intro hs
+        simpa using (hw f (by simp)).single hs
+      · intro b hb
+        obtain ⟨x, hx, hxb⟩ := firstBox_mem hb
+        have := (hw x hx).box b hxb
+        simp [this, (hall x hx).2]
+      · intro b hb
+        simp only at hb
+        split at hb
+        · cases hb
+          have hcnt : ∀ l : List Arr, (∀ a ∈ l, WF a) →
+              ((l.map (fun a => a.bonds.getD ⟨a.n, []⟩)).map (·.count)).foldr (· + ·) 0 = totalLen l := by
+            intro l
+            induction l with
+            | nil => intro _; rfl
+            | cons a r ih =>
+              intro hl
+              have ihr := ih (fun x hx => hl x (by simp [hx]))
+              have : (a.bonds.getD ⟨a.n, []⟩).count = a.n := by
+                cases hb : a.bonds with
+                | none => rfl
+                | some b => exact ((hl a (by simp)).bonds b hb).1
+              simp [totalLen] at ihr ⊢; omega
+          have hwf := concat_wf ((f :: t).map (fun a => a.bonds.getD ⟨a.n, []⟩)) (by
+            intro b hb
+            simp only [List.mem_map] at hb
+            obtain ⟨a, ha, rfl⟩ := hb
+            cases hab : a.bonds with
+            | none => exact ⟨rfl, by simp⟩
+            | some b0 =>
+              have := (hw a ha).bonds b0 hab
+              simp only [Option.getD_some]
+              exact ⟨rfl, by rw [this.1]; exact this.2⟩)
+          have hc := concat_count ((f :: t).map (fun a => a.bonds.getD ⟨a.n, []⟩))
+          rw [hcnt _ hw] at hc
+          refine ⟨hc, ?_⟩
+          rw [← hc]; exact hwf.2
+        · cases hb
+
+theorem stackArrays_wf {xs : List Arr} {a' : Arr} (hw : ∀ a ∈ xs, WF a) (h : stackArrays xs = .ok a') : WF a' := by
+  unfold stackArrays at h
+  split at h
+  · cases h
+  · rename_i f t
+    split at h; · cases h
+    split at h; · cases h
+    split at h; · cases h
+    rename_i hst _ hn
+    cases h
+    have hf := hw f (by simp)
+    refine ⟨hf.cols, ?_, (fun hs => nomatch hs), ?_, hf.bonds⟩
+    · intro c hc
+      simp only [List.mem_map] at hc
+      obtain ⟨a, ha, rfl⟩ := hc
+      have h1 : a.stack = false := by
+        have := hst; simp only [List.any_eq_true, not_exists, not_and, Bool.not_eq_true] at this
+        exact this a ha
+      have h2 : a.n = f.n := by
+        have := hn; simp only [Bool.not_eq_true', Bool.not_eq_false, List.all_eq_true, beq_iff_eq] at this
+        exact this a ha
+      have h3 := (hw a ha).single h1
+      rw [List.getD_eq_getElem?_getD, List.getElem?_eq_getElem (by omega)]
+      simpa [h2] using (hw a ha).blocks _ (List.getElem_mem _)
+    · intro b hb
+      simp only at hb
+      split at hb
+      · cases hb; simp
+      · cases hb
+
+theorem tile_length (k : Nat) (xs : List Tok) : (tile k xs).length = k * xs.length := by
+  unfold tile
+  induction k with
+  | zero => simp [joinCols]
+  | succ k ih =>
+    have : joinCols (List.replicate (k + 1) xs) = xs ++ joinCols (List.replicate k xs) := by
+      simp [joinCols, List.replicate_succ]
+    rw [this, List.length_append, ih, Nat.add_mul]; omega
+
+theorem chunks_spec (size : Nat) : ∀ (cnt : Nat) (xs : List Tok), xs.length = cnt * size →
+    (chunks size cnt xs).length = cnt ∧ ∀ c ∈ chunks size cnt xs, c.length = size
+  | 0, _, _ => by simp [chunks]
+  | c + 1, xs, h => by
+    have hx : xs.length = size + c * size := by rw [h, Nat.add_mul]; omega
+    have ih := chunks_spec size c (xs.drop size) (by simp; omega)
+    refine ⟨by simp [chunks, ih.1], ?_⟩
+    intro d hd
+    simp only [chunks, List.mem_cons] at hd
+    rcases hd with rfl | hd
+    · simp; omega
+    · exact ih.2 d hd
+
+theorem repeatArr_wf {a a' : Arr} {k : Nat} {toks : List Tok} (hw : WF a) (h : repeatArr a k toks = .ok a') : WF a' := by
+  unfold repeatArr at h
+  split at h; · cases h
+  rename_i hlen
+  simp only at h
+  split at h; · cases h
+  rename_i hb
+  cases h
+  have hlen' : toks.length = a.coord.length * (a.n * k) := by
+    have : toks.length = k * a.coord.length * a.n := by simpa using hlen
+    rw [this, Nat.mul_comm k, Nat.mul_assoc, Nat.mul_comm k]
+  have hch := chunks_spec (a.n * k) a.coord.length toks hlen'
+  refine ⟨?_, hch.2, ?_, ?_, ?_⟩
+  · intro p hp; simp only [List.mem_map] at hp; obtain ⟨q, hq, rfl⟩ := hp
+    simp [tile_length, hw.cols q hq, Nat.mul_comm]
+  · intro hs; simp only; rw [hch.1]; exact hw.single hs
+  · intro b hb'; simp only; rw [hch.1]; exact hw.box b hb'
+  · intro b hb'
+    simp only [Option.map_eq_some_iff] at hb'
+    obtain ⟨b0, hb0, rfl⟩ := hb'
+    have hb00 : a.bonds = some b0 := hb0
+    have hcount : (Bonds.concat (List.replicate (max k 1) b0)).count = a.n * k := by
+      simpa [bondsCountBad, hb00] using hb
+    have hwf := concat_wf (List.replicate (max k 1) b0) (by
+      intro b hb
+      have := (List.mem_replicate.1 hb).2
+      subst this
+      have := hw.bonds b hb00
+      exact ⟨rfl, by rw [this.1]; exact this.2⟩)
+    refine ⟨hcount, ?_⟩
+    show ∀ x ∈ (Bonds.concat (List.replicate (max k 1) b0)).bs, x.1 < x.2.1 ∧ x.2.1 < a.n * k
+    rw [← hcount]; exact hwf.2
+
+/-! ### the register machine -/
+
+theorem reg_wf {st : State} (h : WFState st) (i : Nat) : WFVal (reg st i) := by
+  unfold reg
+  rw [List.getD_eq_getElem?_getD]
+  cases hg : st[i]? with
+  | none => trivial
+  | some v => exact h v (List.mem_of_getElem? hg)
+
+theorem arrOf_wf {st : State} {i : Nat} {a : Arr} (h : WFState st) (ha : arrOf st i = .ok a) : WF a := by
+  unfold arrOf at ha
+  have := reg_wf h i
+  split at ha
+  · rename_i x hx; cases ha; rw [hx] at this; exact this
+  · cases ha
+
+theorem arrsOf_wf {st : State} (h : WFState st) : ∀ {is : List Nat} {as : List Arr}, arrsOf st is = .ok as →
+    ∀ a ∈ as, WF a
+  | [], as, ha => by cases ha; simp
+  | i :: r, as, ha => by
+    unfold arrsOf at ha
+    split at ha
+    · rename_i a0 as0 h0 hr
+      cases ha
+      intro a hm
+      simp only [List.mem_cons] at hm
+      rcases hm with rfl | hm
+      · exact arrOf_wf h h0
+      · exact arrsOf_wf h hr a hm
+    · cases ha
+
+theorem set_wf {st : State} {d : Nat} {v : Val} (h : WFState st) (hv : WFVal v) : WFState (st.set d v) := by
+  intro x hx
+  rcases mem_set_imp hx with hx | rfl
+  · exact h x hx
+  · exact hv
+
+theorem put_wf {st : State} {d : Nat} {r : Except Err Val} (h : WFState st) (hr : ∀ v, r = .ok v → WFVal v) :
+    WFState (put st d r).1 := by
+  unfold put
+  split
+  · exact set_wf h (hr _ rfl)
+  · exact h
+
+theorem putArr_wf {st : State} {d : Nat} {r : Except Err Arr} (h : WFState st) (hr : ∀ a, r = .ok a → WF a) :
+    WFState (putArr st d r).1 := by
+  unfold putArr
+  apply put_wf h
+  intro v hv
+  cases r with
+  | error e => cases hv
+  | ok a => cases hv; exact hr a rfl
+
+theorem bind_ok {α β} {x : Except Err α} {f : α → Except Err β} {b : β} (h : x.bind f = .ok b) :
+    ∃ a, x = .ok a ∧ f a = .ok b := by
+  cases x with
+  | error e => cases h
+  | ok a => exact ⟨a, rfl, h⟩
+
+theorem step_wf (st : State) (op : Op) (h : WFState st) : WFState (step st op).1 := by
+  cases op with
+  | new d stack n cols coord box bonds => exact putArr_wf h (fun a ha => mkNew_wf ha)
+  | atom d cols c => exact put_wf h (fun v hv => by cases hv; trivial)
+  | get d s ix =>
+    refine put_wf h (fun v hv => ?_)
+    obtain ⟨a, ha, hf⟩ := bind_ok hv
+    exact getitem_wf (arrOf_wf h ha) hf
+  | get2 d s i0 i1 =>
+    refine put_wf h (fun v hv => ?_)
+    obtain ⟨a, ha, hf⟩ := bind_ok hv
+    exact getitem2_wf (arrOf_wf h ha) hf
+  | set s ix v =>
+    simp only [step]
+    split
+    · rename_i a hs
+      obtain ⟨a0, ha, hf⟩ := bind_ok hs
+      exact set_wf h (setitem_wf (arrOf_wf h ha) (reg_wf h v) hf)
+    · exact h
+  | del s ix =>
+    refine putArr_wf h (fun a hv => ?_)
+    obtain ⟨a0, ha, hf⟩ := bind_ok hv
+    exact delitem_wf (arrOf_wf h ha) hf
+  | concat d ss =>
+    refine putArr_wf h (fun a hv => ?_)
+    obtain ⟨as, ha, hf⟩ := bind_ok hv
+    exact concatenate_wf (arrsOf_wf h ha) hf
+  | stack d ss =>
+    refine putArr_wf h (fun a hv => ?_)
+    obtain ⟨as, ha, hf⟩ := bind_ok hv
+    exact stackArrays_wf (arrsOf_wf h ha) hf
+  | array d ss =>
+    refine putArr_wf h (fun a hv => ?_)
+    obtain ⟨as, _, hf⟩ := bind_ok hv
+    exact arrayOf_wf hf
+  | rep d s k toks =>
+    refine putArr_wf h (fun a hv => ?_)
+    obtain ⟨a0, ha, hf⟩ := bind_ok hv
+    exact repeatArr_wf (arrOf_wf h ha) hf
+  | tmpl d s coord box =>
+    refine putArr_wf h (fun a hv => ?_)
+    obtain ⟨a0, ha, hf⟩ := bind_ok hv
+    exact fromTemplate_wf (arrOf_wf h ha) hf
+  | addann s k =>
+    refine putArr_wf h (fun a hv => ?_)
+    cases ha : arrOf st s with
+    | error e => rw [ha] at hv; cases hv
+    | ok a0 => rw [ha] at hv; cases hv; exact addAnnotation_wf k (arrOf_wf h ha)
+  | setann s k c =>
+    refine putArr_wf h (fun a hv => ?_)
+    obtain ⟨a0, ha, hf⟩ := bind_ok hv
+    exact setAnnotation_wf (arrOf_wf h ha) hf
+  | delann s k =>
+    refine putArr_wf h (fun a hv => ?_)
+    obtain ⟨a0, ha, hf⟩ := bind_ok hv
+    exact delAnnotation_wf (arrOf_wf h ha) hf
+  | setcoord s coord =>
+    refine putArr_wf h (fun a hv => ?_)
+    obtain ⟨a0, ha, hf⟩ := bind_ok hv
+    exact setCoord_wf (arrOf_wf h ha) hf
+  | setbox s box =>
+    refine putArr_wf h (fun a hv => ?_)
+    obtain ⟨a0, ha, hf⟩ := bind_ok hv
+    exact setBox_wf (arrOf_wf h ha) hf
+  | setbonds s bs =>
+    refine putArr_wf h (fun a hv => ?_)
+    obtain ⟨a0, ha, hf⟩ := bind_ok hv
+    exact setBonds_wf (arrOf_wf h ha) hf
+  | copy d s =>
+    simp only [step]
+    split
+    · exact h
+    · exact set_wf h (reg_wf h s)
+  | eq s t =>
+    simp only [step]
+    split <;> exact h
 
 end BiotiteModel.C01
